@@ -53,6 +53,8 @@ class Roles:
         m["pack_loader"] = first([b for b in readers if "Vec<u8>" in b.local_ty(0)])
         m["obj_reader"] = first([b for b in readers if "serde_json::Value" in b.local_ty(0)])
         m["pack_writer"] = first([b for b in ds if calls_adapter(b, "write_object") and not passthrough(b, "write_object")])
+        m["pack_applier"] = first([b for b in ds if self._calls(b, lambda c, t, x: c.target() == "utils::digest_bytes") and
+                                   not self._calls(b, lambda c, t, x: c.trait == ADAPTER_TRAIT)])
         m["applier"] = first([b for b in melda if self._calls(b, lambda c, t, x: c.target() == "revisiontree::RevisionTree::unvalidated_add")])
         # marker: writes Status::Ready into a status field
         def writes_ready(b):
